@@ -172,7 +172,7 @@ def add_merged_output_edges(
                     if internal_source:
                         actual_source = internal_source
 
-            actual_target = target
+            actual_targets = [target]
             target_attrs = flat_graph.nodes.get(target, {})
             is_target_container = target_attrs.get("node_type") == "GRAPH"
             is_target_expanded = expansion_state.get(target, False)
@@ -181,36 +181,39 @@ def add_merged_output_edges(
                 consumers = param_to_consumers.get(value_name, [])
                 internal_consumers = [c for c in consumers if c != target and is_descendant_of(c, target, flat_graph)]
                 if internal_consumers:
-                    actual_target = internal_consumers[0]
+                    # One edge per internal consumer of the value
+                    actual_targets = internal_consumers
                 else:
                     entrypoints = find_container_entrypoints(target, flat_graph, expansion_state)
                     if entrypoints:
-                        actual_target = entrypoints[0]
+                        actual_targets = [entrypoints[0]]
 
             if not is_node_visible(actual_source, flat_graph, expansion_state):
                 continue
-            if not is_node_visible(actual_target, flat_graph, expansion_state):
-                continue
-            if actual_source == actual_target:
-                continue
 
-            edge_id = f"e_{actual_source}_{actual_target}"
-            if value_name:
-                edge_id = f"e_{actual_source}_{value_name}_{actual_target}"
+            for actual_target in actual_targets:
+                if not is_node_visible(actual_target, flat_graph, expansion_state):
+                    continue
+                if actual_source == actual_target:
+                    continue
 
-            rf_edge = {
-                "id": edge_id,
-                "source": actual_source,
-                "target": actual_target,
-                "animated": False,
-                "style": {"stroke": "#64748b", "strokeWidth": 2},
-                "data": {
-                    "edgeType": edge_type,
-                    "valueName": value_name,
-                },
-            }
+                edge_id = f"e_{actual_source}_{actual_target}"
+                if value_name:
+                    edge_id = f"e_{actual_source}_{value_name}_{actual_target}"
 
-            edges.append(rf_edge)
+                edges.append(
+                    {
+                        "id": edge_id,
+                        "source": actual_source,
+                        "target": actual_target,
+                        "animated": False,
+                        "style": {"stroke": "#64748b", "strokeWidth": 2},
+                        "data": {
+                            "edgeType": edge_type,
+                            "valueName": value_name,
+                        },
+                    }
+                )
 
 
 def add_separate_output_edges(
